@@ -1,4 +1,5 @@
 import MageModel.Parse.Pkg
+import MageModel.Gen.Emit
 /-!
 # C18 — the generated main program is a deterministic function of the magefiles
 Go randomises the iteration order of every `range` over a map.  The model has no such freedom left: wherever the
@@ -47,6 +48,36 @@ theorem unique_names_order_independent (loaded loaded' : List (String × String 
     (inj : ∀ a b, a ∈ loaded → b ∈ loaded → key a ≤ key b → key b ≤ key a → a = b) (h : loaded.Perm loaded') :
     assignUnique [] (sortBy key loaded) = assignUnique [] (sortBy key loaded') := by
   rw [sortBy_perm_invariant key loaded loaded' trans total inj h]
+
+/-! ### the generated file itself -/
+
+/-- **The bytes of the generated main file do not depend on the iteration order of the `Aliases` map** — for *every*
+template (the theorem is parametric in the node list; the current template is the regenerated
+`Generated.TemplateAst.nodes`), every set of `ExecCode` literals, every binary name and every package: two enumerations
+of the same alias entries (distinct keys) produce the same text.  (`Funcs` and `Imports` are slices, sorted by
+`Invoke` before generation: `unique_names_order_independent`, `sortBy_perm_invariant`.) -/
+theorem emit_alias_order_irrelevant (nodes : List MageModel.Gen.Tpl.Node) (lits : List String) (bin : String) (info : PkgInfo)
+    (a a' : List (String × Function)) (h : a.Perm a')
+    (hkeys : ∀ x y, x ∈ a → y ∈ a → x.1 = y.1 → x = y) :
+    MageModel.Gen.Emit.emit nodes lits bin { info with aliases := a } =
+      MageModel.Gen.Emit.emit nodes lits bin { info with aliases := a' } := by
+  unfold MageModel.Gen.Emit.emit MageModel.Gen.Emit.dataVal
+  simp only []
+  have hs : sortBy (·.1) a = sortBy (·.1) a' := by
+    apply sortBy_perm_invariant (·.1) a a'
+    · intro x y z h1 h2; exact String.le_trans h1 h2
+    · intro x y; exact String.le_total _ _
+    · intro x y hx hy h1 h2; exact hkeys x y hx hy (String.le_antisymm h1 h2)
+    · exact h
+  rw [hs]
+
+/-- … and it is a function of the package information and the binary name alone: nothing else enters `emit` -/
+theorem emit_deterministic (nodes : List MageModel.Gen.Tpl.Node) (lits : List String) (bin : String) (info info' : PkgInfo)
+    (hf : info.funcs = info'.funcs) (hi : info.imports = info'.imports) (hd : info.defaultFunc = info'.defaultFunc)
+    (ha : info.aliases = info'.aliases) (hdesc : info.description = info'.description) :
+    MageModel.Gen.Emit.emit nodes lits bin info = MageModel.Gen.Emit.emit nodes lits bin info' := by
+  unfold MageModel.Gen.Emit.emit MageModel.Gen.Emit.dataVal
+  rw [hf, hi, hd, ha, hdesc]
 
 /-! ### the pinned tree (D16): numbering in map order -/
 namespace Pinned
